@@ -32,6 +32,9 @@ def canon(o):
                      common.tok(o.size_remaining)])
 
 
+BYBET = []      # (driver line, decision taken here) of every bet-id step, compared with the model's `pickByBet` at the end of the run
+
+
 def snapshot_ops(w, bets, ld):
     """model ops for a snapshot: which local order each current order is applied to (reference lookup, then bet id)"""
     ops = []
@@ -40,6 +43,10 @@ def snapshot_ops(w, bets, ld):
         target = by_ref
         if by_ref is not None and by_ref.bet_id and str(by_ref.bet_id) != str(b["bet_id"]):
             target = next((o for o in w.orders if o.bet_id and str(o.bet_id) == str(b["bet_id"])), None)
+        if by_ref is not None and len(BYBET) < 20000:
+            known = sorted({int(o.bet_id) for o in w.orders if o.bet_id})
+            BYBET.append(("ref.bybet %s %d %s" % (int(by_ref.bet_id) if by_ref.bet_id else "-", int(b["bet_id"]), ",".join(map(str, known)) or "."),
+                          "S" if target is None else ("R" if target is by_ref else "B%d" % int(target.bet_id))))
         if target is not None:
             ops.append("SN:%d:%d:%s:%s:%s" % (target._mid, b["bet_id"], ld.STATUS_TOK[b["status"]], common.tok(b["matched"]), common.tok(b["remaining"])))
     return ops
@@ -411,6 +418,16 @@ def run_histories(res, tier, seed, model_ok, search):
         for line, impl, ans, pl in zip(lines, impls, common.run_driver(lines), payloads):
             if ans != impl:
                 res.disagree({"request": line[:1500], "model": ans[:900], "implementation": impl[:900], "case": pl})
+    # the bet-id step ("which local order does this current order belong to") as taken above, against the model's `pickByBet` (C19
+    # `update_never_misattributed`): the decisions above are tied to the implementation by the state comparison, this ties them to the model
+    if model_ok and BYBET:
+        decided = list(dict.fromkeys(BYBET))
+        res.distribution["bet-id-step:" + "/".join(sorted({d[1][0] for d in decided}))] += len(decided)
+        for (line, mine), ans in zip(decided, common.run_driver([d[0] for d in decided])):
+            res.evaluations += 1
+            if ans != mine:
+                res.disagree({"request": line, "model": ans, "implementation": mine, "case": {"step": "bet-id step of process_current_orders"}})
+    del BYBET[:]
 
 
 def live_findings(tier, seed, search):
